@@ -29,14 +29,27 @@
 //! 22 rate limiter AT ITS GATE: 1 permit per 10 ms window, timeout 30 ms (the second request of a window
 //!    waits for the next window inside its future),
 //! 23 adaptive limiter AT ITS GATE: AIMD with initial = min = max limit 1 (poll_ready answers Pending
-//!    without polling the inner service while a call is in flight).
+//!    without polling the inner service while a call is in flight),
+//! 24 retry with the crate's DEFAULT policy (no retry_on: every error is retried), 25 reconnect with the
+//!    crate's DEFAULT predicate (every error triggers a reconnection) -- ids 3 / 15 / 8 refuse everything
+//!    but the strict service's TRANSIENT errors --,
+//! 26 hedge in latency mode with a delay (10 ms) LONGER than a call of the strict service (2 ms): the next
+//!    hedge is started only after every earlier attempt has failed.
+//!
+//! K field of modes 1 and 3: K = k + 16 * E + 2^20 * F; k (<= 6): further attempts of every retrying /
+//!   hedging layer; E: bit j-1 = every call for request j fails with an APPLICATION error (val -100 - j);
+//!   F = 0: default failure schedule (with a hedge layer nothing fails, otherwise the first (k+1)^m - 1 calls
+//!   of every request fail with a TRANSIENT error, m = number of retry / reconnect layers), F > 0: the first
+//!   F - 1 calls of every request fail.
 //!
 //! mode 1: [1; n; layer ids (outermost first); k; nreq; shared oracle entries (0 Ready 1 Pending 2 Err)...]
-//!   -> per request a code (0 called and answered Ok(10 * request), 1 readiness error at poll_ready in
-//!      pass-through wrapping of all n layers, 2 the same inside the call, 3 never ready; never produced by
-//!      the model: 4 poll_ready failed with anything else, 5 a readiness error in the wrong wrapping inside
-//!      the call, 6 any other outcome, 7 panic, 9 hang), then the strict service's log with instances
-//!      renamed by first use ([1; inst; r; 0] poll / [2; inst; was-ready; request] call), [violations]
+//!   -> per request a code (0 answered Ok(10 * request), 1 readiness error at poll_ready in pass-through
+//!      wrapping of all n layers, 2 the same inside the call, 3 never ready, 6 an error made up by a layer,
+//!      10 the strict service's application error in pass-through wrapping, 11 its transient error; never
+//!      produced by the model: 4 poll_ready failed with anything else, 5 an error of the wrapped service
+//!      in a wrong wrapping, 7 panic, 9 hang), then the strict service's log with instances renamed by first
+//!      use ([1; inst; r; 0] poll / [2; inst; was-ready + 2 * result (0 Ok 1 transient 2 application);
+//!      request] call), [violations]
 //! mode 3: [3; n; layer ids; k; nops; (opcode; a; b) * nops; per-instance oracle: entries of the instance
 //!      used first, -1, entries of the instance used second, -1, ...]
 //!      opcodes: 0 poll handle a until Ready (8 Pending answers at most) / 1 call on handle a, b = 1: the
@@ -55,7 +68,10 @@
 //!      reference's]
 //! mode 4: [4; n; layer ids; nlisteners; panic mask; nreq; (req; okind; oval)*]
 //!   -> per request the four integers of mode 0, then for every layer position (outermost first), every
-//!      listener and every event kind 0..5 the number of invocations
+//!      listener and every event kind 0..5 the number of invocations, then the same counts of the
+//!      REFERENCE run (same script, well-behaved listeners)
+//! panic mask (modes 2 and 4): bit i = listener i panics with a String payload; bit i + 4 = listener i
+//!   panics with a payload whose Drop panics (std::panic::panic_any(Bomb))
 //!
 //! Every layer sits directly under a `tower::util::MapErr` that folds the layer's error type back
 //! into the common error `E` (pass-through variant: depth + 1; anything the layer made up itself:
@@ -146,32 +162,62 @@ impl Lst {
     fn n(&self) -> usize {
         self.counts.len()
     }
-    /// listener i, registered for event kind `kind`: counts the event, then panics if bit i of the
-    /// mask is set
+    /// how listener i misbehaves: 0 not at all, 1 panics with a String payload (bit i of the mask),
+    /// 2 panics with a payload whose Drop panics (bit i + 4 of the mask: std::panic::panic_any(Bomb))
+    fn style(&self, i: usize) -> u8 {
+        if (self.mask >> (i + 4)) & 1 == 1 {
+            2
+        } else if (self.mask >> i) & 1 == 1 {
+            1
+        } else {
+            0
+        }
+    }
+    /// listener i, registered for event kind `kind`: counts the event, then misbehaves in its style
     fn h(&self, i: usize, kind: usize) -> impl Fn() + Send + Sync + Clone + 'static {
         let c = self.counts.clone();
-        let p = (self.mask >> i) & 1 == 1;
+        let p = self.style(i);
         move || {
             c[i][kind].fetch_add(1, Ordering::SeqCst);
-            if p {
-                panic!("listener {} panics", i);
-            }
+            misbehave(p, i);
         }
     }
     /// listener i for layers with ONE registration method and an event enum: `kind_of` picks the kind
     fn hk(&self, i: usize) -> impl Fn(usize) + Send + Sync + Clone + 'static {
         let c = self.counts.clone();
-        let p = (self.mask >> i) & 1 == 1;
+        let p = self.style(i);
         move |kind: usize| {
             c[i][kind.min(NK - 1)].fetch_add(1, Ordering::SeqCst);
-            if p {
-                panic!("listener {} panics", i);
-            }
+            misbehave(p, i);
         }
     }
     fn snapshot(&self) -> Vec<u64> {
         self.counts.iter().flat_map(|r| r.iter().map(|c| c.load(Ordering::SeqCst))).collect()
     }
+}
+
+/// a panic payload whose destructor panics in turn (unless the thread is already unwinding)
+struct Bomb;
+impl Drop for Bomb {
+    fn drop(&mut self) {
+        if !std::thread::panicking() {
+            panic!("panic payload dropped");
+        }
+    }
+}
+
+fn misbehave(style: u8, i: usize) {
+    match style {
+        1 => panic!("listener {} panics", i),
+        2 => std::panic::panic_any(Bomb),
+        _ => {}
+    }
+}
+
+/// the panic mask of a script: bits 0..nl (String payload) and 4..4+nl (Bomb payload)
+fn clamp_mask(mask: i128, nl: usize) -> i128 {
+    let low = (1i128 << nl) - 1;
+    mask & (low | (low << 4))
 }
 
 type Hook = Box<dyn Fn() + Send>;
@@ -207,7 +253,7 @@ impl Cfg {
 }
 
 fn has_listeners(id: i128) -> bool {
-    matches!(id, 0 | 1 | 2 | 3 | 4 | 5 | 6 | 7 | 8 | 12 | 13 | 14 | 15 | 20 | 21 | 22)
+    matches!(id, 0 | 1 | 2 | 3 | 4 | 5 | 6 | 7 | 8 | 12 | 13 | 14 | 15 | 20 | 21 | 22 | 24 | 25 | 26)
 }
 
 /// breaker variants that start Open and whose open period has to elapse before the first request
@@ -321,12 +367,15 @@ fn wrap(id: i128, inner: Bx, c: &Cfg, lst: Option<&Lst>) -> Bx {
                 bx(MapErr::new(cb, conv))
             }
         }
-        3 | 15 => {
+        3 | 15 | 24 => {
             let mut b = RetryLayer::<i128, E>::builder()
                 .max_attempts(if c.mode == 1 || c.mode == 3 { c.k + 1 } else { 3 })
                 // variant 15: retries without any backoff (Duration::ZERO)
-                .fixed_backoff(if id == 15 { Duration::ZERO } else { Duration::from_millis(1) })
-                .retry_on(|e: &E| e.kind == TRANSIENT);
+                .fixed_backoff(if id == 15 { Duration::ZERO } else { Duration::from_millis(1) });
+            // variant 24: the crate's DEFAULT policy (every error is retried), no retry_on
+            if id != 24 {
+                b = b.retry_on(|e: &E| e.kind == TRANSIENT);
+            }
             for i in 0..nl {
                 let (h1, h2, h3, h4, h5) = (h(i, 0), h(i, 1), h(i, 2), h(i, 3), h(i, 4));
                 b = b
@@ -394,12 +443,15 @@ fn wrap(id: i128, inner: Bx, c: &Cfg, lst: Option<&Lst>) -> Bx {
                 FallbackError::FallbackFailed(_) => made(6, 1),
             }))
         }
-        7 | 20 => {
+        7 | 20 | 26 => {
             let mut b = HedgeLayer::builder().name("c20");
             b = match (c.mode, id) {
                 (1 | 3, 7) => b.no_delay().max_hedged_attempts(c.k + 1),
                 // latency mode: one hedge per millisecond while the primary is still running
-                (1 | 3, _) => b.delay(Duration::from_millis(1)).max_hedged_attempts(c.k + 1),
+                (1 | 3, 20) => b.delay(Duration::from_millis(1)).max_hedged_attempts(c.k + 1),
+                // latency mode, the delay (10 ms) longer than a call of the strict service (2 ms): the
+                // next hedge is started only after every earlier attempt has failed
+                (1 | 3, _) => b.delay(Duration::from_millis(10)).max_hedged_attempts(c.k + 1),
                 (2, _) => b.delay(Duration::from_millis(10)).max_hedged_attempts(2),
                 _ => b.delay(Duration::from_secs(10)).max_hedged_attempts(2),
             };
@@ -420,12 +472,15 @@ fn wrap(id: i128, inner: Bx, c: &Cfg, lst: Option<&Lst>) -> Bx {
                 HedgeError::AllAttemptsFailed(_) => made(7, 1),
             }))
         }
-        8 => {
+        8 | 25 => {
             let mut b = ReconnectConfig::builder()
                 .policy(ReconnectPolicy::fixed(Duration::from_millis(1)))
                 .max_attempts(if c.mode == 1 || c.mode == 3 { c.k as u32 + 1 } else { 3 })
-                .retry_on_reconnect(true)
-                .reconnect_predicate(|e: &dyn std::error::Error| e.to_string().starts_with("E kind=1 "));
+                .retry_on_reconnect(true);
+            // variant 25: the crate's DEFAULT predicate (every error triggers a reconnection)
+            if id != 25 {
+                b = b.reconnect_predicate(|e: &dyn std::error::Error| e.to_string().starts_with("E kind=1 "));
+            }
             // the crate's `tracing` feature: ONE callback per kind. Listener 0 is on_state_change
             // (event kind 0), listener 1 is on_reconnect (event kind 1); further listeners are not registered
             if nl >= 1 {
@@ -518,6 +573,8 @@ struct StrictState {
     violations: i128,
     /// attempts 1..=kfail of every request fail with a transient error
     kfail: usize,
+    /// bit j-1 set: every call for request j fails with an application error
+    emask: i128,
     attempts: HashMap<i128, usize>,
     /// every call takes this long (virtual ms)
     slow_ms: u64,
@@ -537,6 +594,7 @@ impl StrictState {
             ready: vec![false],
             violations: 0,
             kfail,
+            emask: 0,
             attempts: HashMap::new(),
             slow_ms,
             held: HashSet::new(),
@@ -623,13 +681,25 @@ impl Service<i128> for Strict {
             st.violations += 1;
         }
         st.ready[id] = false;
-        st.log.push([2, c as i128, ok as i128, req]);
         let a = {
             let e = st.attempts.entry(req).or_insert(0);
             *e += 1;
             *e
         };
-        let res = if a <= st.kfail { Err(E { kind: TRANSIENT, val: -1, depth: 0 }) } else { Ok(req * 10) };
+        let app = (1..=100).contains(&req) && (st.emask >> (req - 1)) & 1 == 1;
+        let res = if app {
+            Err(E { kind: APP, val: -100 - req, depth: 0 })
+        } else if a <= st.kfail {
+            Err(E { kind: TRANSIENT, val: -1, depth: 0 })
+        } else {
+            Ok(req * 10)
+        };
+        let rc = match &res {
+            Ok(_) => 0,
+            Err(e) if e.kind == TRANSIENT => 1,
+            Err(_) => 2,
+        };
+        st.log.push([2, c as i128, ok as i128 + 2 * rc, req]);
         let slow = st.slow_ms;
         let sh = self.sh.clone();
         Box::pin(async move {
@@ -780,24 +850,40 @@ fn ids_of(s: &[i128]) -> (usize, Vec<i128>) {
     (n, (0..n).map(|i| zn(s, 2 + i)).collect())
 }
 
+/// the K field of a protocol script: k + 16 * E + 2^20 * F
+/// (k <= 6 further attempts; E: application-error mask over the requests; F: 0 = default failure
+/// schedule, F > 0: the first F - 1 calls of every request fail with a transient error)
+fn k_field(kf: i128) -> (usize, i128, i128) {
+    let kf = kf.max(0);
+    ((kf % 16).clamp(0, 6) as usize, (kf / 16) % 65536, kf / 1_048_576)
+}
+
 /// the strict service's failure schedule and speed for a stack.
-/// Hedged attempts all succeed (hedge runs them in parallel). Otherwise every call of a request fails
+/// Default schedule: with a hedge in the stack nothing fails. Otherwise every call of a request fails
 /// except the last one the retrying layers can make: with m retry / reconnect layers of k further
-/// attempts each, the first (k + 1)^m - 1 calls fail (m = 1: the first k), so that every such layer
-/// makes exactly k further attempts each time it is called.
-/// (a pre-tripped breaker needs its half-open trial call to succeed: with no retrying layer in the
-/// stack nothing fails)
-fn strict_for(ids: &[i128], k: usize) -> StrictState {
-    let m = ids.iter().filter(|i| matches!(**i, 3 | 8 | 15)).count() as u32;
-    let hedge = ids.iter().any(|i| matches!(*i, 7 | 20));
-    let kfail = if hedge || (ids.iter().any(|i| pre_tripped(*i)) && m == 0) {
+/// attempts each, the first (k + 1)^m - 1 calls fail (m = 1: the first k).
+fn strict_for(ids: &[i128], kf: i128) -> StrictState {
+    let (k, emask, f) = k_field(kf);
+    let m = ids.iter().filter(|i| matches!(**i, 3 | 8 | 15 | 24 | 25)).count() as u32;
+    let hedge = ids.iter().any(|i| matches!(*i, 7 | 20 | 26));
+    let kfail = if f > 0 {
+        ((f - 1).min(4095)) as usize
+    } else if hedge {
         0
     } else {
         (k + 1).saturating_pow(m).min(4096) - 1
     };
-    // hedge in latency mode: calls slow enough for every hedge to fire
-    let slow_ms = if ids.contains(&20) { 10 } else { 0 };
-    StrictState::new(kfail, slow_ms)
+    // hedge in latency mode: calls slow enough for every hedge to fire (20) / faster than the delay (26)
+    let slow_ms = if ids.contains(&20) {
+        10
+    } else if ids.contains(&26) {
+        2
+    } else {
+        0
+    };
+    let mut st = StrictState::new(kfail, slow_ms);
+    st.emask = emask;
+    st
 }
 
 /// outcome code of a request whose request value was `req` through `n` layers
@@ -811,14 +897,20 @@ fn code_of(out: &Outcome, req: i128, n: usize) -> i128 {
             }
         }
         Outcome::Err(e) => {
-            if e.kind == READY {
-                if e.depth as usize == n {
-                    2
+            if e.kind == LAYER {
+                6
+            } else if e.depth as usize != n {
+                5
+            } else if e.kind == READY {
+                2
+            } else if e.kind == APP {
+                if e.val == -100 - req {
+                    10
                 } else {
-                    5
+                    6
                 }
             } else {
-                6
+                11
             }
         }
         Outcome::PollErr(e) => {
@@ -844,12 +936,13 @@ fn finish_trace(tr: &mut Vec<i128>, sh: &Arc<Mutex<StrictState>>) {
 
 fn run_protocol(s: &[i128]) -> Vec<i128> {
     let (n, ids) = ids_of(s);
-    let k = zn(s, 2 + n).clamp(0, 6) as usize;
+    let kf = zn(s, 2 + n);
+    let k = k_field(kf).0;
     let nreq = zn(s, 3 + n).clamp(0, 16);
     let oracle: VecDeque<i128> = s.iter().skip(4 + n).copied().collect();
     let rt = paused_rt();
     rt.block_on(async move {
-        let mut st0 = strict_for(&ids, k);
+        let mut st0 = strict_for(&ids, kf);
         st0.shared = oracle;
         let sh = Arc::new(Mutex::new(st0));
         let cfg = Cfg::new(1, k);
@@ -921,7 +1014,8 @@ const OP_BUDGET_MS: u32 = 12;
 
 fn run_program(s: &[i128]) -> Vec<i128> {
     let (n, ids) = ids_of(s);
-    let k = zn(s, 2 + n).clamp(0, 6) as usize;
+    let kf = zn(s, 2 + n);
+    let k = k_field(kf).0;
     let nops = zn(s, 3 + n).clamp(0, 64) as usize;
     let ops: Vec<(i128, i128, i128)> =
         (0..nops).map(|i| (zn(s, 4 + n + 3 * i), zn(s, 5 + n + 3 * i), zn(s, 6 + n + 3 * i))).collect();
@@ -939,7 +1033,7 @@ fn run_program(s: &[i128]) -> Vec<i128> {
     }
     let rt = paused_rt();
     rt.block_on(async move {
-        let mut st0 = strict_for(&ids, k);
+        let mut st0 = strict_for(&ids, kf);
         st0.per_inst = Some(per_inst);
         let sh = Arc::new(Mutex::new(st0));
         let cfg = Cfg::new(3, k);
@@ -1078,14 +1172,15 @@ fn run_program(s: &[i128]) -> Vec<i128> {
 
 // ---------------------------------------------------------------------------
 /// modes 0 and 4: a stack in its non-triggering configuration over the scripted service
-fn run_transparent(s: &[i128], with_listeners: bool) -> Vec<i128> {
+/// `mask_override`: run with this panic mask instead of the script's (mode 4's reference run)
+fn run_transparent(s: &[i128], with_listeners: bool, mask_override: Option<i128>) -> Vec<i128> {
     let (n, ids) = ids_of(s);
     let (ik, nl, mask, base) = if with_listeners {
         (0, zn(s, 2 + n).clamp(0, 4) as usize, zn(s, 3 + n), 4 + n)
     } else {
         (zn(s, 2 + n), 0, 0, 3 + n)
     };
-    let mask = mask & ((1 << nl) - 1);
+    let mask = clamp_mask(mask_override.unwrap_or(mask), nl);
     let nreq = zn(s, base).clamp(0, 32) as usize;
     let reqs: Vec<(i128, i128, i128)> =
         (0..nreq).map(|i| (zn(s, base + 1 + 3 * i), zn(s, base + 2 + 3 * i), zn(s, base + 3 + 3 * i))).collect();
@@ -1182,7 +1277,7 @@ fn listener_run(id: i128, nl: usize, mask: i128, okinds: &[i128]) -> Vec<(Outcom
 fn run_listeners(s: &[i128]) -> Vec<i128> {
     let id = zn(s, 1);
     let nl = zn(s, 2).clamp(0, 4) as usize;
-    let mask = zn(s, 3) & ((1 << nl) - 1);
+    let mask = clamp_mask(zn(s, 3), nl);
     let nreq = zn(s, 4).clamp(0, 32) as usize;
     let okinds: Vec<i128> = (0..nreq).map(|i| zn(s, 5 + i)).collect();
     if !has_listeners(id) {
@@ -1208,8 +1303,16 @@ fn run(s: &[i128]) -> Vec<i128> {
     match zn(s, 0) {
         1 => run_protocol(s),
         3 => run_program(s),
-        0 => run_transparent(s, false),
-        4 => run_transparent(s, true),
+        0 => run_transparent(s, false, None),
+        4 => {
+            // the run with the script's panic mask, then the counts of the reference run of the same
+            // script with well-behaved listeners
+            let mut tr = run_transparent(s, true, None);
+            let reference = run_transparent(s, true, Some(0));
+            let nreq = zn(s, 4 + ids_of(s).0).clamp(0, 32) as usize;
+            tr.extend(reference.iter().skip(4 * nreq).copied());
+            tr
+        }
         _ => run_listeners(s),
     }
 }
